@@ -8,11 +8,12 @@ FUNCS = ['ThresholdCounter.add', 'ThresholdCounter.__getitem__', 'ThresholdCount
 
 
 def run(ded, repo, tier):
-    eng = Engine(repo, tc.FILE, classes=tc.CLASSES, contracts=tc.CONTRACTS)
-    for c in tc.ALL:
-        eng.register_class(c)
-    for q in FUNCS:
-        driver.discharge(ded, eng, q, clause_of={'*': 'counts_contract'}, tier=tier)
+    specs = [dict(module='contracts.tc', repo=repo, q=q, tier=tier, clause_of={'*': 'counts_contract'}) for q in FUNCS]
+    specs += [dict(module='contracts.tc', repo=repo, q='ThresholdCounter.update', variant=v, tier=tier,
+                   clause_of={'*': 'update_equals_adds'}) for v in ('keys', 'mapping', 'kwargs')]
+    driver.run_parallel(ded, specs)
     ded.assume('hash/== of keys are total, deterministic and side-effect free; no NaN keys')
     ded.assume('integers are mathematical (exact for Python ints)')
     ded.assume('int(1/threshold) is the intended floor(1/threshold)')
+    ded.assume('update(): the argument is a finite sequence of keys, a dict of key -> int count, or keyword counts; the proved post is invariant + one add() per key (sequence) / count adds per key (inner loop of the mapping form); the exact total for the mapping form (sum of counts) is bounded only')
+    ded.trust('not under contract (bounded only): __init__, most_common, elements, items/keys/values, get_common_count/get_uncommon_count')
